@@ -1,5 +1,138 @@
-import Summer.Model.Run
-namespace Summer.Props.C02
-theorem placeholder : True := trivial
-end Summer.Props.C02
-#print axioms Summer.Props.C02.placeholder
+import Summer.Proofs.Rates
+/-
+C02 — conservation at the level of the rate function: what the compartment rates add up to.
+(The solver-level invariants are separate.)
+-/
+namespace Summer.C02
+open Summer Summer.Run Summer.Spec Summer.Proofs
+
+section
+/- Only the field axioms are needed, so these hold in particular over every ordered field. -/
+variable {α : Type} [Field α]
+
+/-- The compartment rates add up to (total of the entry flows) − (total of the exit flows), for every
+rate vector `r` (no hypothesis on its length: flows and rates are paired positionally). -/
+theorem total_rate (m : Model α) (b : Backend) (h : prepare m = .ok b) (r : List α) :
+    sumL (compRates b r) = Spec.entryTotal m r - Spec.exitTotal m r :=
+  sum_compRates (backendFor_of_prepare m b h) r
+
+/-- Column `j` of the application matrix: flow `j` enters the rate of compartment `c` with coefficient
+`[c is its destination] − [c is its source]`. -/
+theorem column (m : Model α) (b : Backend) (h : prepare m = .ok b) (c j : Nat) (hc : c < m.comps.length)
+    (hj : j < m.flows.length) :
+    Spec.entry (applicationMatrix b : Matrix α) c j =
+      (if Spec.dstIx m m.flows[j] = some c then 1 else 0) - (if Spec.srcIx m m.flows[j] = some c then 1 else 0) := by
+  rw [appMat_entry (backendFor_of_prepare m b h) c j hc hj]
+  simp only [coef, beq_iff_eq]
+
+/-- A flow with both ends (source position `s`, destination position `d`, `s ≠ d`) contributes `+1·r_j`
+to its destination, `−1·r_j` to its source and nothing to any other compartment. -/
+theorem transition_balanced (m : Model α) (b : Backend) (h : prepare m = .ok b) (j : Nat)
+    (hj : j < m.flows.length) (s d : Nat) (hs : Spec.srcIx m m.flows[j] = some s)
+    (hd : Spec.dstIx m m.flows[j] = some d) (hsd : s ≠ d) (c : Nat) (hc : c < m.comps.length) :
+    Spec.entry (applicationMatrix b : Matrix α) c j = if c = d then 1 else if c = s then -1 else 0 := by
+  rw [column m b h c j hc hj, hs, hd]
+  by_cases h1 : c = d
+  · subst h1
+    have : ¬ s = c := hsd
+    simp [this]
+  · by_cases h2 : c = s
+    · subst h2
+      have : ¬ d = c := fun e => h1 e.symm
+      simp [this, h1]
+    · have h1' : ¬ d = c := fun e => h1 e.symm
+      have h2' : ¬ s = c := fun e => h2 e.symm
+      simp [h1, h2, h1', h2']
+
+/-- a self-loop contributes nothing anywhere -/
+theorem self_loop_cancels (m : Model α) (b : Backend) (h : prepare m = .ok b) (j : Nat)
+    (hj : j < m.flows.length) (s : Nat) (hs : Spec.srcIx m m.flows[j] = some s)
+    (hd : Spec.dstIx m m.flows[j] = some s) (c : Nat) (hc : c < m.comps.length) :
+    Spec.entry (applicationMatrix b : Matrix α) c j = 0 := by
+  rw [column m b h c j hc hj, hs, hd]; simp
+
+omit [Field α] in
+/-- both ends of such a flow are genuine compartment positions, so the two contributions are not lost -/
+theorem ends_in_range (m : Model α) (f : Flow α) (s d : Nat) :
+    (Spec.srcIx m f = some s → s < m.comps.length) ∧ (Spec.dstIx m f = some d → d < m.comps.length) :=
+  ⟨srcIx_lt m f s, dstIx_lt m f d⟩
+
+/-- A model without entry flows (every flow has a source) and without exit flows (every flow has a
+destination) conserves the total: the compartment rates sum to zero for every rate vector. -/
+theorem closed_rates (m : Model α) (b : Backend) (h : prepare m = .ok b)
+    (hentry : ∀ f ∈ m.flows, f.src.isSome = true) (hexit : ∀ f ∈ m.flows, f.dst.isSome = true)
+    (r : List α) : sumL (compRates b r) = 0 := by
+  rw [total_rate m b h r]
+  have h1 : Spec.entryTotal m r = 0 := by
+    unfold Spec.entryTotal
+    apply sumL_eq_zero_of_all_zero
+    intro v hv
+    simp only [List.mem_map, List.mem_filter] at hv
+    obtain ⟨fr, ⟨hmem, hnone⟩, rfl⟩ := hv
+    have := hentry fr.1 (List.of_mem_zip (show (fr.1, fr.2) ∈ m.flows.zip r from hmem)).1
+    cases hsrc : fr.1.src <;> simp [hsrc] at this hnone
+  have h2 : Spec.exitTotal m r = 0 := by
+    unfold Spec.exitTotal
+    apply sumL_eq_zero_of_all_zero
+    intro v hv
+    simp only [List.mem_map, List.mem_filter] at hv
+    obtain ⟨fr, ⟨hmem, hnone⟩, rfl⟩ := hv
+    have := hexit fr.1 (List.of_mem_zip (show (fr.1, fr.2) ∈ m.flows.zip r from hmem)).1
+    cases hdst : fr.1.dst <;> simp [hdst] at this hnone
+  rw [h1, h2, sub_zero]
+
+end
+
+/-! ## non-vacuity -/
+section example_
+def cS : Comp := ⟨"S", []⟩
+def cI : Comp := ⟨"I", []⟩
+def cR : Comp := ⟨"R", []⟩
+
+def mk (flows : List (Flow Rat)) : Model Rat :=
+  { t0 := 0, t1 := 10, dt := 1, nTimes := 11,
+    comps := [cS, cI, cR], origNames := ["S", "I", "R"], infectious := ["I"], flows := flows,
+    strats := [], mixingCats := [[]], mixingMats := [], strains := ["default"],
+    initDist := none, arrayPop := none, actions := [], requests := [], computed := [], whitelist := [],
+    finalized := true }
+
+/-- open model: births, imports, a death flow, and internal flows -/
+def openModel : Model Rat := mk
+  [ { kind := .infFreq, name := "infection", src := some cS, dst := some cI, param := .const 2, adjs := [] },
+    { kind := .transition, name := "recovery", src := some cI, dst := some cR, param := .const (1/2), adjs := [] },
+    { kind := .death, name := "death", src := some cI, dst := none, param := .const (1/10), adjs := [] },
+    { kind := .crudeBirth, name := "births", src := none, dst := some cS, param := .const (1/50), adjs := [] },
+    { kind := .importF, name := "imports", src := none, dst := some cI, param := .const 5, adjs := [] },
+    { kind := .absolute, name := "waning", src := some cR, dst := some cS, param := .const 3, adjs := [] } ]
+
+/-- closed model: internal flows only -/
+def closedModel : Model Rat := mk
+  [ { kind := .infDens, name := "infection", src := some cS, dst := some cI, param := .const 2, adjs := [] },
+    { kind := .transition, name := "recovery", src := some cI, dst := some cR, param := .const (1/2), adjs := [] },
+    { kind := .absolute, name := "waning", src := some cR, dst := some cS, param := .const 3, adjs := [] } ]
+
+example : (prepare openModel).toOption.isSome = true := by decide
+example : (prepare closedModel).toOption.isSome = true := by decide
+example : (∀ f ∈ closedModel.flows, f.src.isSome = true) ∧ (∀ f ∈ closedModel.flows, f.dst.isSome = true) := by
+  decide
+
+/-- for an arbitrary (even negative) rate vector the total is entries − exits: 7 + 11 − 5 = 13 -/
+example : (prepare openModel).toOption.map (fun b => (compRates b ([1, -2, 5, 7, 11, 13] : List Rat), sumL (compRates b ([1, -2, 5, 7, 11, 13] : List Rat)))) =
+    some ([19, 9, -15], 13) ∧
+    Spec.entryTotal openModel [1, -2, 5, 7, 11, 13] - Spec.exitTotal openModel [1, -2, 5, 7, 11, 13] = (13 : Rat) := by
+  decide +kernel
+example : (prepare closedModel).toOption.map (fun b => (compRates b ([4, -2, 9] : List Rat), sumL (compRates b ([4, -2, 9] : List Rat)))) =
+    some ([5, 6, -11], 0) := by decide +kernel
+/-- the application matrix of the open model (rows = compartments, columns = flows) -/
+example : (prepare openModel).toOption.map (fun b => (applicationMatrix b : Matrix Rat)) =
+    some [[-1, 0, 0, 1, 0, 1], [1, -1, -1, 0, 1, 0], [0, 1, 0, 0, 0, -1]] := by decide +kernel
+end example_
+
+#print axioms total_rate
+#print axioms column
+#print axioms transition_balanced
+#print axioms self_loop_cancels
+#print axioms ends_in_range
+#print axioms closed_rates
+
+end Summer.C02
